@@ -240,7 +240,8 @@ class CompiledValue(Value):
                 self.inference_state,
                 self.access_handle.execute_operation(other.access_handle, operator)
             )])
-        except TypeError:
+        except (TypeError, ArithmeticError):
+            # ArithmeticError: e.g. an int literal that is too large for a float.
             return NO_VALUES
 
     def execute_annotation(self, context):
